@@ -373,6 +373,55 @@ def run(ctx: Ctx) -> int:
     )
 
 
+def unproj(x: dict) -> t.Any:
+    """Cms.tla fields -> DPAPINGBlob (inverse of proj, for --replay)."""
+    from dpapi_ng._blob import DPAPINGBlob, KeyIdentifier, SIDDescriptor
+
+    def u32(l: list[int]) -> int:
+        return (l[0] << 16) | l[1]
+
+    def oid(a: list[list[int]]) -> str:
+        out = []
+        for d in a:
+            n = 0
+            for q in d:
+                n = (n << 7) | q
+            out.append(str(n))
+        return ".".join(out)
+
+    def unpar(p: dict) -> t.Optional[bytes]:
+        return bytes(p["raw"]) if p["p"] else None
+
+    k = x["kid"]
+    g = k["g"]
+    rk = uuid.UUID(bytes=u32(g["d1"]).to_bytes(4, "big") + g["d2"].to_bytes(2, "big") + g["d3"].to_bytes(2, "big") + bytes(g["d4"]))
+    kid = KeyIdentifier(version=u32(k["version"]), flags=u32(k["flags"]), l0=u32(k["l0"]), l1=u32(k["l1"]), l2=u32(k["l2"]), root_key_identifier=rk,
+                        key_info=bytes(k["key_info"]), domain_name="".join(map(chr, k["domain"])), forest_name="".join(map(chr, k["forest"])))
+    return DPAPINGBlob(key_identifier=kid, protection_descriptor=SIDDescriptor("".join(map(chr, x["sid"]))), enc_cek=bytes(x["enc_cek"]),
+                       enc_cek_algorithm=oid(x["cek_alg"]), enc_cek_parameters=unpar(x["cek_par"]), enc_content=bytes(x["content"]),
+                       enc_content_algorithm=oid(x["ct_alg"]), enc_content_parameters=unpar(x["ct_par"]))
+
+
+def replay(ctx: Ctx, case: dict) -> int:
+    import dpapi_ng
+
+    row = case["case"]
+    if row["k"] == "pack":
+        if any(isinstance(v, list) and v and v[-1] == "..." for v in row["x"].values()):
+            raise MachineryError("recorded case was truncated (large content); re-run the tier instead")
+        new = pack_row(row["id"], unproj(row["x"]), row["layout"] == "envelope")
+    elif row["k"] == "protect":
+        rkid = uuid.UUID(bytes=ctx.rng.randbytes(16))
+        cache = dpapi_ng.KeyCache()
+        cache.load_key(ctx.rng.randbytes(64), rkid)
+        new = protect_row(row["id"], cache, rkid, "".join(map(chr, row["sid"])), ctx.rng.randbytes(row["ptlen"]), row.get("flavour", "sync"))
+    else:
+        new = [r for r in win_rows() if r["id"] == row["id"]][0]
+    bad, _ = validate(ctx, "TraceCms", "TraceCms.cfg", [new], what="replay", env=JVM_ENV)
+    judge(ctx, {new["id"]: new}, bad)
+    return ctx.finish(rule="replay of one recorded case")
+
+
 def _expect_reject(ctx: Ctx, module: str, cfg: str, good: list[dict], corrupted: list[dict], what: str) -> None:
     """As tracecheck.selftest_expect_reject, with this driver's JVM options (deep recursion needs a larger stack)."""
     bad, _ = validate(ctx, module, cfg, good, what=what + "-good", count_traces=False, env=JVM_ENV)
